@@ -90,7 +90,13 @@ func GenReq(t *rapid.T, sq *vk.Square, kind string) Req {
 		anchor := rapid.IntRange(0, sq.ODS*sq.ODS-1).Draw(t, "anchor")
 		lo, hi := sq.NSStretch(anchor)
 		from := rapid.IntRange(lo, hi-1).Draw(t, "from")
+		if rapid.IntRange(0, 2).Draw(t, "fromlo") == 0 {
+			from = lo
+		}
 		to := rapid.IntRange(from+1, hi).Draw(t, "to")
+		if rapid.IntRange(0, 2).Draw(t, "tohi") == 0 {
+			to = hi
+		}
 		if rapid.IntRange(0, 2).Draw(t, "onerow") == 0 {
 			// keep the range inside the row of `from`
 			to = min(to, (from/sq.ODS+1)*sq.ODS)
